@@ -97,3 +97,40 @@ def npz_head(path: str, key: str, k: int):
             cnt = k * int(np.prod(shape[1:])) if len(shape) > 1 else k
             buf = f.read(cnt * dtype.itemsize)
             return np.frombuffer(buf, dtype=dtype).reshape((k, *shape[1:])).copy()
+
+
+# ---- module-level tables of the generators / dataset writers: no call may mutate them --------------------------------------
+
+TABLE_MODULES = ["rl4co.data.generate_data", "rl4co.envs.routing.cvrp.generator", "rl4co.envs.routing.op.generator",
+                 "rl4co.envs.routing.pctsp.generator", "rl4co.envs.routing.mtvrp.generator", "rl4co.envs.common.utils",
+                 "rl4co.envs.routing.cvrptw.generator", "rl4co.envs.scheduling.fjsp.generator", "rl4co.envs.scheduling.jssp.generator",
+                 "rl4co.envs.graph.mcp.generator", "rl4co.envs.graph.flp.generator"]
+
+
+def tables_snapshot():
+    """deep copy of every module-level dict / list / tuple / set constant of the generator modules"""
+    import copy as _copy
+    import importlib
+
+    snap = {}
+    for mn in TABLE_MODULES:
+        try:
+            mod = importlib.import_module(mn)
+        except Exception:  # noqa: BLE001
+            continue
+        for k, v in vars(mod).items():
+            if not k.startswith("__") and isinstance(v, (dict, list, tuple, set)) and k.isupper():
+                snap[(mn, k)] = _copy.deepcopy(v)
+    return snap
+
+
+def tables_changed(snap):
+    """[(module, name, before, after)] for every table that differs from the snapshot"""
+    import importlib
+
+    out = []
+    for (mn, k), before in snap.items():
+        now = getattr(importlib.import_module(mn), k, None)
+        if now != before:
+            out.append((mn, k, str(before)[:160], str(now)[:160]))
+    return out
